@@ -43,6 +43,7 @@ CONSTANTS NT,         \* threads 1..NT
           MaxDepth,   \* bound on the depth of a thread's stack
           MaxMap,     \* SetValues maps bind at most MaxMap keys
           MaxDrop,    \* bound on the number of dropped context handles
+          WithEmpty,  \* BOOLEAN: the empty ContextValue{} (monostate) can be bound ("clear a key")
           GenDepth,   \* generation runs: length of an exported behaviour
           DeepTarget, \* generation runs: stack depth that sets the flag "deep"
           Hist,       \* BOOLEAN: record behaviour + rare-condition flags (generation runs only)
@@ -52,7 +53,12 @@ CONSTANTS NT,         \* threads 1..NT
 Threads == 1..NT
 Keys    == 1..NK
 SpanKey == 1
-Val     == (1..NV) \cup {100 + s : s \in 1..NS}
+\* Binding a key to the EMPTY ContextValue is a binding like any other: it is the most recent one, so it
+\* shadows an older non-empty binding - GetValue answers the empty value and HasKey (documented as
+\* "GetValue is not empty") answers false, exactly as for a key that was never bound.
+Empty   == 99
+Val     == (1..NV) \cup {100 + s : s \in 1..NS} \cup (IF WithEmpty THEN {Empty} ELSE {})
+Seen(v) == IF v = Empty THEN 0 ELSE v          \* what GetValue / HasKey make of a bound value
 IsSpan(v) == v > 100
 
 VARIABLES val,      \* Seq: val[c] \in [Keys -> Val \cup {0}]   the value of context c
@@ -101,7 +107,7 @@ Handles == live \cup {0}
 NextPhase(ph, d) == IF ph \in {0, 2} /\ d >= DeepTarget THEN ph + 1
                     ELSE IF ph = 1 /\ d <= 3 THEN 2 ELSE ph
 Phase(t) == phase' = [phase EXCEPT ![t] = NextPhase(@, Len(stack'[t]))]
-Derive(p, m) == [k \in Keys |-> IF m[k] # 0 THEN m[k] ELSE Value(val, p, k)]
+Derive(p, m) == [k \in Keys |-> IF m[k] # 0 THEN Seen(m[k]) ELSE Value(val, p, k)]
 MapSeq(m) == [k \in 1..NK |-> m[k]]
 
 (* ---- Context::SetValue / RuntimeContext::SetValue ---------------------- *)
@@ -114,6 +120,8 @@ SetValue(t, p, k, v) ==
   /\ UNCHANGED <<stack, toks, scopes, phase>>
   /\ Rec([NoOp EXCEPT !.op = "SetValue", !.t = t, !.c = p, !.k = k, !.v = v, !.n = NCtx + 1])
   /\ Flag((IF Value(val, p, k) # 0 THEN {"shadow"} ELSE {}) \cup
+          (IF v = Empty /\ Value(val, p, k) # 0 THEN {"clear_key"} ELSE {}) \cup
+          (IF v = Empty /\ k = SpanKey /\ IsSpan(Value(val, p, k)) THEN {"clear_span_key"} ELSE {}) \cup
           (IF p # 0 /\ \E q \in 1..NCtx : q # p /\ origin[q].p = p THEN {"sibling"} ELSE {}))
 
 (* ---- Context::SetValues(map): no duplicate keys inside one map ---------- *)
@@ -126,7 +134,8 @@ SetValues(t, p, m) ==
   /\ UNCHANGED <<stack, toks, scopes, phase>>
   /\ Rec([NoOp EXCEPT !.op = "SetValues", !.t = t, !.c = p, !.m = MapSeq(m), !.n = NCtx + 1])
   /\ Flag((IF \A k \in Keys : m[k] = 0 THEN {"emptymap"} ELSE {}) \cup
-          (IF \E k \in Keys : m[k] # 0 /\ Value(val, p, k) # 0 THEN {"shadowmap"} ELSE {}))
+          (IF \E k \in Keys : m[k] # 0 /\ Value(val, p, k) # 0 THEN {"shadowmap"} ELSE {}) \cup
+          (IF \E k \in Keys : m[k] = Empty /\ Value(val, p, k) # 0 THEN {"clear_key_map"} ELSE {}))
 
 (* ---- RuntimeContext::Attach -------------------------------------------- *)
 Attach(t, c) ==
@@ -239,11 +248,11 @@ TypeOK == /\ Len(origin) = Len(val)
 \* "the most recent binding of a key is the one returned": walk the derivation chain
 RECURSIVE Chain(_, _)
 Chain(c, k) == IF c = 0 THEN 0
-               ELSE IF origin[c].m[k] # 0 THEN origin[c].m[k] ELSE Chain(origin[c].p, k)
+               ELSE IF origin[c].m[k] # 0 THEN Seen(origin[c].m[k]) ELSE Chain(origin[c].p, k)
 MostRecentBinding == \A c \in 1..NCtx : \A k \in Keys : val[c][k] = Chain(c, k)
 \* "new keys shadow older bindings", everything else is inherited from the parent
 Shadowing == \A c \in 1..NCtx : \A k \in Keys :
-               val[c][k] = IF origin[c].m[k] # 0 THEN origin[c].m[k] ELSE Value(val, origin[c].p, k)
+               val[c][k] = IF origin[c].m[k] # 0 THEN Seen(origin[c].m[k]) ELSE Value(val, origin[c].p, k)
 \* the stack restores, on Detach, exactly what was current before the matching Attach
 StackFrames == \A t \in Threads : \A i \in 1..Len(stack[t]) :
                  stack[t][i].before = IF i = 1 THEN 0 ELSE stack[t][i - 1].c
@@ -295,6 +304,9 @@ WitShadow       == Wit("shadow")
 WitSibling      == Wit("sibling")
 WitEmptyMap     == Wit("emptymap")
 WitShadowMap    == Wit("shadowmap")
+WitClearKey     == Wit("clear_key")
+WitClearSpanKey == Wit("clear_span_key")
+WitClearKeyMap  == Wit("clear_key_map")
 WitReattach     == Wit("reattach")
 WitForeign      == Wit("foreign")
 WitForeignX     == Wit("foreign_xthread")
